@@ -28,7 +28,7 @@ from ..common import Ctx
 LEVEL = "exploration"
 NEEDS_DEPS = True
 SHARDS = {"quick": 16, "thorough": 16}
-FLOOR = {"quick": 1500, "thorough": 30000}
+FLOOR = {"quick": 900, "thorough": 20000}
 REQUIRED_COUNTERS = ["law_decode_checks", "law_encode_checks", "failure_injections", "serializer_contract_evals",
                      "cyclic_graphs", "order_comparisons", "trees_with_meta", "partial_documents"]
 RULE = ("random dataclass type trees (depth<=4; list/dict/Optional/nested dataclass; leaves str,int,float,bool,bytes,datetime,date; "
